@@ -74,10 +74,12 @@ Definition regex_id (r : regexdef) : option N :=
   | RLit [64]%N => Some 1%N
   | RLit [94; 46; 123; 50; 44; 52; 125; 36]%N => Some 2%N
   | RLit [98; 123; 50; 125]%N => Some 3%N                 (* b{2} : a counted repetition, unanchored *)
+  | RLit [40; 63; 105; 41; 94; 107; 91; 48; 45; 57; 93; 43; 36]%N => Some 4%N   (* (?i)^k[0-9]+$ *)
   | RPath "RE0" => Some 0%N
   | RPath "RE1" => Some 1%N
   | RPath "RE2" => Some 2%N
   | RPath "RE3" => Some 3%N
+  | RPath "RE4" => Some 4%N
   | _ => None
   end.
 
@@ -92,5 +94,12 @@ Definition regex_match (r : regexdef) (s : list N) : bool :=
                    | a :: ((b :: _) as r) => (N.eqb a 98 && N.eqb b 98) || two r
                    | _ => false
                    end) s
+  (* Unicode-aware case folding (the crate's default): k also matches K and U+212A KELVIN SIGN;
+     [0-9] stays the ASCII digits *)
+  | Some 4%N => match s with
+                | c :: ((_ :: _) as ds) => (N.eqb c 107 || N.eqb c 75 || N.eqb c 8490) &&
+                                           forallb (fun c => (48 <=? c)%N && (c <=? 57)%N) ds
+                | _ => false
+                end
   | _ => false
   end.
